@@ -25,5 +25,7 @@ new=$(git rev-parse HEAD)
 cd /repo
 git reset -q --soft $new
 git reset -q
+# the generated snapshot in the working tree is never an agent's own edit: bring it to the new HEAD
+git checkout -q -- release/c/wuffs-unsupported-snapshot.c
 echo "committed $name as $(git rev-parse --short HEAD)"
 git status --short | head
